@@ -259,7 +259,7 @@ func (e *Engine) valueEq(x, y Value) *Term {
 			return st.Bool(b.Nil)
 		case FuncNil:
 			return st.True
-		case *Closure, *ssa.Function:
+		case *Closure, *ssa.Function, *NativeFn:
 			return st.False
 		case *Chan:
 			return st.Bool(b == nil)
@@ -311,10 +311,10 @@ func (e *Engine) valueEq(x, y Value) *Term {
 		switch y.(type) {
 		case FuncNil, nil:
 			return st.True
-		case *Closure, *ssa.Function:
+		case *Closure, *ssa.Function, *NativeFn:
 			return st.False
 		}
-	case *Closure, *ssa.Function:
+	case *Closure, *ssa.Function, *NativeFn:
 		switch y.(type) {
 		case FuncNil, nil:
 			return st.False
